@@ -117,3 +117,16 @@ package engine
 //@     frame nothing
 //@   ensures [newer_first] result == (len(fname(dirs[i])) > len(fname(dirs[j])) || (len(fname(dirs[i])) == len(fname(dirs[j])) && fname(dirs[i]) > fname(dirs[j])))
 
+
+// ================================================================ C02: out-of-order files, newest wins
+//@ prop C02
+// Out-of-order files are read oldest to newest; the record just read comes from the NEWER file and must be the
+// `newRec` side of the merge with what has been accumulated so far, in both read directions.
+//@ func (*tsmMergeCursor).FirstTimeInit
+//@   ghost last Ptr = nil
+//@   call (*tsmMergeCursor).readData
+//@     set last = ret0
+//@   call (*Record).MergeRecord
+//@     requires arg0 == last
+//@   call (*Record).MergeRecordDescend
+//@     requires arg0 == last
